@@ -94,6 +94,10 @@ impl<'ctx> PriceRepositoryBuilder<'ctx> {
         price_of: SingleAmount<'ctx>,
         price_with: SingleAmount<'ctx>,
     ) {
+        if price_of.value.is_zero() {
+            // zero quantity can't tell any price.
+            return;
+        }
         let Entry(stored_source, entries): &mut _ = self
             .records
             .entry(price_with.commodity)
